@@ -399,9 +399,15 @@ def parseTop (ts : Toks) : Option Expr :=
 
 /-- `Program::compile` / `Parser::parse`: lex, then parse; any lexer error rejects -/
 def compile (src : Str) : Option Expr :=
-  match Lexer.lex src with
-  | (ts, 0) => parseTop ts
-  | _ => none
+  -- The antlr4rust token stream does not skip a hidden-channel token at index 0: the parser
+  -- sees it, deletes it and reports "extraneous input".  `parser.rs` filters that report for
+  -- WHITESPACE only, so a text that *begins* with a comment is rejected (observed; DESIGN.md).
+  match Lexer.bestMatch src with
+  | some (.comment, _, _) => none
+  | _ =>
+    match Lexer.lex src with
+    | (ts, 0) => parseTop ts
+    | _ => none
 
 end Parser
 end Cel
